@@ -509,10 +509,14 @@ def run_sequence(cfg):
         e_in = None if ev is None else (np.array(ev) if cfg["y_kind"] == "nd" else list(ev))
         acq = {"EI": EI, "UCB": UCB, "MV": MV}[cfg["acq"]]
         out["init"] = {"x": rows, "y": yv, "yerr": ev, "bounds": bounds}
+        # the search bounds are one of the arrays the caller passes in: as a float ndarray
+        # (n_dims, 2) when the data are arrays, as a list of tuples otherwise
+        bounds_in = np.array(bounds, dtype=float) if cfg["y_kind"] == "nd" else list(bounds)
+        bounds_snap = _snap(bounds_in)
         before = [_snap(x_in), _snap(y_in), _snap(e_in)]
         with warnings.catch_warnings():
             warnings.simplefilter("ignore")
-            G = GpOptimiser(x_in, y_in, bounds=bounds, y_err=e_in, acquisition=acq,
+            G = GpOptimiser(x_in, y_in, bounds=bounds_in, y_err=e_in, acquisition=acq,
                             optimizer=cfg["optimizer"])
         after = [_snap(x_in), _snap(y_in), _snap(e_in)]
         out["init_changed"] = [nm for nm, b, a in zip(("x", "y", "y_err"), before, after) if a != b]
@@ -526,7 +530,9 @@ def run_sequence(cfg):
                 pv = np.atleast_1d(np.asarray(p, dtype=float)).reshape(-1).tolist()
                 inb = len(pv) == d and all(lo <= v <= hi for v, (lo, hi) in zip(pv, bounds))
                 out["events"].append({"op": "P", "proposal": pv, "in_bounds": inb,
-                                      "type": type(p).__name__, "shape": getattr(p, "shape", None)})
+                                      "type": type(p).__name__, "shape": getattr(p, "shape", None),
+                                      "bounds_changed": _snap(bounds_in) != bounds_snap,
+                                      "bounds_now": np.asarray(bounds_in, dtype=float).tolist()})
                 last_prop = p
             else:
                 kind = cfg["newx_kind"]
@@ -654,6 +660,9 @@ def sequence_findings(res):
         if evn["op"] == "P":
             if not evn["in_bounds"]:
                 bad.append(("C18/proposal-bounds", f"proposal {evn['proposal']} outside the bounds"))
+            if evn.get("bounds_changed"):
+                bad.append(("C18/caller-arrays", "propose_evaluation modified the caller's bounds array: now "
+                            f"{evn['bounds_now']}"))
         else:
             if "exception" in evn:
                 key = "C18/caller-arrays" if "resize" in evn["exception"] else "C18/exception"
